@@ -596,6 +596,48 @@ func (g *pg) boolE(d int) *ir.Expr {
 			return ir.Bin(ir.OpHasTag, p.e.Clone(), ir.Lit(ir.Str(gen.Pick(rt, sch.RTagKeys, "tagk"))))
 		}
 		return g.boolLeaf()
+	case 12:
+		// `v in Ancestor::"id" && <ill-typed>`: a correct validator types the guard as Bool and rejects the right operand; one
+		// that wrongly concludes "v can never be in that type" (e.g. follows only some of the parent types) types the guard
+		// False, skips the right operand and accepts a policy that fails when the guard is true.
+		if g.slip("ancestor-guard-before-ill-typed") {
+			vname, vt := "principal", g.env.P
+			if gen.Chance(rt, 50, "ancres") {
+				vname, vt = "resource", g.env.R
+			}
+			seen := map[string]bool{}
+			var anc []string
+			var walk func(n string)
+			walk = func(n string) {
+				e := g.rs.Entity(n)
+				if e == nil {
+					return
+				}
+				for _, p := range e.Parents {
+					if !seen[p] {
+						seen[p] = true
+						anc = append(anc, p)
+						walk(p)
+					}
+				}
+			}
+			walk(vt)
+			if len(anc) > 0 {
+				a := gen.Pick(rt, anc, "ancty")
+				target := ir.Lit(ir.Ent(a, gen.Pick(rt, g.ids(a), "ancid")))
+				guard := ir.Bin(ir.OpIn, ir.Var(vname), target)
+				if gen.Chance(rt, 30, "ancset") {
+					guard = ir.Bin(ir.OpIn, ir.Var(vname), ir.SetE(target))
+				}
+				bad := gen.Pick(rt, []*ir.Expr{
+					ir.Bin(ir.OpLt, ir.Lit(ir.Long(1)), ir.Lit(ir.Str("a"))),
+					ir.Bin(ir.OpEq, ir.Bin(ir.OpAdd, ir.Lit(ir.Long(1)), ir.Lit(ir.Bool(true))), ir.Lit(ir.Long(2))),
+					ir.Un(ir.OpNot, ir.Lit(ir.Long(1))),
+				}, "ancbad")
+				return ir.Bin(ir.OpAnd, guard, bad)
+			}
+		}
+		return g.guarded(d)
 	default:
 		return g.guarded(d)
 	}
